@@ -742,6 +742,10 @@ package jrpc2
 //@   modifies monitor(Server, s), chSends, held(s.mu), slotId, Response.err, Response.result, fired
 //@   ensures[C09:gate] !s.allowP ==> result1 == ErrPushUnsupported && result0 == nil && forall(c Iface, chSends(c) == old(chSends(c)))
 //@   ensures[C09:reply-or-error] (result0 == nil) != (result1 == nil)
+// Once the slot has settled, the outcome is the reply's alone: the response
+// itself if it carries no error, otherwise its error (context codes mapped
+// back by filterError) - the caller's context is not consulted again.
+//@   ensures[C09:outcome-is-the-replys] called("call.wait#1") ==> called("call.Error#1") && (callres("call.Error#1", 0, "*Error") == nil ? (result1 == nil && result0 == callres("call.pushReq#1", 0, "*Response")) : (result0 == nil && called("call.filterError#1") && result1 == callres("call.filterError#1", 0, "error")))
 
 // ---------------------------------------------------------------------------
 // Census: structural rules over the whole module (DESIGN 5.4)
@@ -1023,6 +1027,7 @@ package jrpc2
 //@   requires wfClient(c) && !held(fieldaddr(c, mu)) && ctx != nil
 //@   modifies monitor(Client, c), held(fieldaddr(c, mu)), chSends, slotId, Response.err, Response.result, fired
 //@   ensures[C05:reply-or-error] (result0 == nil) != (result1 == nil)
+//@   ensures[C05:outcome-is-the-replys] called("call.wait#1") ==> called("call.Error#1") && (callres("call.Error#1", 0, "*Error") == nil ? result1 == nil : (result0 == nil && called("call.filterError#1") && result1 == callres("call.filterError#1", 0, "error")))
 //@   ensures !held(fieldaddr(c, mu))
 
 //@ func (*Client).Batch
